@@ -170,6 +170,7 @@ type producer struct {
 	n        int
 	ctx      context.Context
 	cancel   context.CancelFunc
+	endErr   error // what the context reports once it has ended: Canceled, or DeadlineExceeded
 	canceled bool
 	done     chan struct{}
 	err      error
@@ -298,13 +299,38 @@ func newWorld(cfg Cfg) (*world, *vt.Finding) {
 	return w, nil
 }
 
+// endCtx is a context the harness ends on demand with an error of its choice (a deadline that "arrives" exactly
+// when the script says so).
+type endCtx struct {
+	context.Context
+	done chan struct{}
+	err  error
+	once sync.Once
+}
+
+func (c *endCtx) Done() <-chan struct{} { return c.done }
+func (c *endCtx) Err() error {
+	select {
+	case <-c.done:
+		return c.err
+	default:
+		return nil
+	}
+}
+func (c *endCtx) end() { c.once.Do(func() { close(c.done) }) }
+
 // offer starts an Offer in its own goroutine.
 func (w *world) offer(n int, cancelable bool) *producer {
 	p := &producer{rid: w.next, n: n, size: w.sizeOf(w.next, n), done: make(chan struct{}), step: w.step}
 	w.next++
-	p.ctx, p.cancel = context.Background(), func() {}
+	p.ctx, p.cancel, p.endErr = context.Background(), func() {}, context.Canceled
 	if cancelable {
 		p.ctx, p.cancel = context.WithCancel(context.Background())
+		if p.rid%2 == 0 {
+			// every other cancellable producer has a context that ends the way a deadline does
+			ec := &endCtx{Context: context.Background(), done: make(chan struct{}), err: context.DeadlineExceeded}
+			p.ctx, p.cancel, p.endErr = ec, ec.end, context.DeadlineExceeded
+		}
 	}
 	w.prods[p.rid] = p
 	ld := payload(p.rid, n)
@@ -406,7 +432,7 @@ func (w *world) reconcile(c *vt.C) *vt.Finding {
 			continue
 		}
 		switch {
-		case p.canceled && errors.Is(p.err, context.Canceled):
+		case p.canceled && errors.Is(p.err, p.endErr):
 			p.state = "refused"
 			p.returned = true
 			c.Class("blocked-producer-cancelled")
@@ -429,7 +455,7 @@ func (w *world) reconcile(c *vt.C) *vt.Finding {
 			switch {
 			case p.err == nil:
 				return vt.Failf("wfr-returned-early", "wait_for_result: rid=%d returned nil before its request was finished", p.rid)
-			case p.canceled && errors.Is(p.err, context.Canceled):
+			case p.canceled && errors.Is(p.err, p.endErr):
 				// either never admitted, or admitted and abandoned by its producer (it may then still be
 				// handed over, or be dropped by the sender because its context is done)
 				p.state, p.returned = "maybe", true
@@ -717,7 +743,7 @@ func (w *world) complete(c *vt.C, pick int, fail bool) *vt.Finding {
 		if !p.returned {
 			p.returned = true
 			switch {
-			case p.canceled && errors.Is(p.err, context.Canceled):
+			case p.canceled && errors.Is(p.err, p.endErr):
 			case out == nil && p.err != nil, out != nil && !errors.Is(p.err, out):
 				return vt.Failf("wrong-result", "wait_for_result: producer rid=%d received %v, its request finished with %v", p.rid, p.err, out)
 			}
@@ -753,7 +779,7 @@ func (w *world) cancelOne(c *vt.C, pick int) *vt.Finding {
 			}
 			p.state = "maybe"
 		}
-		if p.err == nil || !errors.Is(p.err, context.Canceled) {
+		if p.err == nil || !errors.Is(p.err, p.endErr) {
 			if !(p.hasResult) {
 				return vt.Failf("cancel-result", "producer rid=%d cancelled while waiting returned %v", p.rid, p.err)
 			}
@@ -818,7 +844,7 @@ func (w *world) burst(c *vt.C, op *Op) *vt.Finding {
 			}
 			if !p.returned {
 				p.returned = true
-				if p.err != nil && !(p.canceled && errors.Is(p.err, context.Canceled)) {
+				if p.err != nil && !(p.canceled && errors.Is(p.err, p.endErr)) {
 					return vt.Failf("wrong-result", "wait_for_result: producer rid=%d received %v, its request succeeded (burst)", p.rid, p.err)
 				}
 			}
@@ -1233,7 +1259,7 @@ func runStormInner(s *Storm) *vt.Finding {
 			if !waitReturn(p, watchdog) {
 				return fail(stuckf("cancel-ignored", "round %d: blocked producer did not return within %v after its context was cancelled while %d completions were freeing space (%d blocked, %d cancelled); cfg %+v", round, watchdog, s.Completes, s.Blocked, s.Cancels, s.Cfg))
 			}
-			if p.err != nil && !errors.Is(p.err, context.Canceled) {
+			if p.err != nil && !errors.Is(p.err, p.endErr) {
 				return fail(vt.Failf("blocked-offer-result", "round %d: cancelled producer returned %v", round, p.err))
 			}
 		}
